@@ -503,3 +503,170 @@ def text_cond(table):
         return table.get(ast.unparse(test))
 
     return cond
+
+
+# ---------------------------------------------------------------------------
+class AutoEvaluator(Evaluator):
+    """Evaluator in which everything that is not computed inside the function is a symbol of its own:
+
+      * an unbound name or attribute chain is the symbol of that name;
+      * a local that is filled through subscript stores (`accel[bset] = a`) is a *buffer*: it stays the symbol of its name and its stores
+        are recorded as (name, index value, stored value, node) in `self.cells`;
+      * `X[i]` is the atom idx(value of X, value of i) - the index is *evaluated*, so `k[bb]` with `bb = np.ix_(bset, bset)` and
+        `k[np.ix_(bset, bset)]` are the same atom;
+      * a call the evaluator does not model is the atom call(name, values of the arguments).
+
+    Two spellings of a statement that differ by temporaries, by renamed locals or by commuted sums/products therefore evaluate to the same
+    formula; the expected side of a rule is written as a Python expression over the function's parameters and evaluated the same way."""
+
+    def __init__(self, fn=None, **kw):
+        kw.setdefault("erase_subscripts", False)
+        super().__init__(**kw)
+        self.cells = []
+        self.buffers = set()
+        if fn is not None:
+            for n in ast.walk(fn):
+                tg = []
+                if isinstance(n, ast.Assign):
+                    tg = n.targets
+                elif isinstance(n, ast.AugAssign):
+                    tg = [n.target]
+                for t in tg:
+                    if isinstance(t, ast.Subscript) and isinstance(t.value, ast.Name):
+                        self.buffers.add(t.value.id)
+
+    def _index_value(self, sl):
+        if isinstance(sl, ast.Tuple):
+            return F.fn("tuple", *[self._index_value(e) for e in sl.elts])
+        if isinstance(sl, ast.Slice):
+            parts = []
+            for p in (sl.lower, sl.upper, sl.step):
+                if p is None:
+                    parts.append(F.sym("None"))
+                else:
+                    v = self._ev(p)
+                    if is_unknown(v):
+                        raise Unsupported(v.why)
+                    parts.append(need(v))
+            return F.fn("slice", *parts)
+        v = self._ev(sl)
+        if is_unknown(v):
+            raise Unsupported(v.why)
+        if isinstance(v, tuple):
+            return F.fn("tuple", *[need(x) for x in v])
+        return need(v)
+
+    def _ev(self, node):
+        if isinstance(node, ast.Name):
+            if node.id in self.buffers:
+                return F.sym(node.id)
+            if node.id in self.env:
+                return self.env[node.id]
+            if node.id in CONSTS:
+                return F.sym(CONSTS[node.id])
+            if node.id in ("None", "True", "False"):
+                return F.sym(node.id)
+            return F.sym(node.id)
+        if isinstance(node, ast.Constant) and node.value is None:
+            return F.sym("None")
+        if isinstance(node, ast.Constant) and isinstance(node.value, str):
+            return F.sym(repr(node.value))
+        if isinstance(node, ast.Compare) and len(node.ops) == 1:
+            a, b = self._ev(node.left), self._ev(node.comparators[0])
+            if is_unknown(a) or is_unknown(b) or isinstance(a, tuple) or isinstance(b, tuple):
+                return a if is_unknown(a) else (b if is_unknown(b) else Unknown("comparison of tuples"))
+            return F.fn("cmp:" + type(node.ops[0]).__name__, need(a), need(b))
+        if isinstance(node, ast.BoolOp):
+            vs = [self._ev(v) for v in node.values]
+            if any(is_unknown(v) or isinstance(v, tuple) for v in vs):
+                return next(v for v in vs if is_unknown(v) or isinstance(v, tuple)) if any(is_unknown(v) for v in vs) else Unknown("bool of tuples")
+            return F.fn("bool:" + type(node.op).__name__, *[need(v) for v in vs])
+        if isinstance(node, ast.UnaryOp) and isinstance(node.op, (ast.Not, ast.Invert)):
+            v = self._ev(node.operand)
+            if is_unknown(v) or isinstance(v, tuple):
+                return v if is_unknown(v) else Unknown("not of a tuple")
+            return F.fn("not" if isinstance(node.op, ast.Not) else "invert", need(v))
+        if isinstance(node, ast.Attribute):
+            d = dotted(node)
+            if d is not None:
+                if d in self.env:
+                    return self.env[d]
+                if d in CONSTS:
+                    return F.sym(CONSTS[d])
+                root = d.split(".")[0]
+                if root not in self.env or root in self.buffers:
+                    return F.sym(d)
+            base = self._ev(node.value)
+            if is_unknown(base):
+                return base
+            if isinstance(base, tuple):
+                return Unknown(f"attribute of a tuple {ast.unparse(node)}")
+            return F.fn("attr:" + node.attr, need(base))
+        if isinstance(node, ast.Subscript):
+            if self.subscript is not None:
+                r = self.subscript(node, self)
+                if r is not NotImplemented:
+                    return r
+            base = self._ev(node.value)
+            if is_unknown(base):
+                return base
+            if isinstance(base, tuple):
+                return super()._ev(node)
+            try:
+                ix = self._index_value(node.slice)
+            except Unsupported as e:
+                return Unknown(str(e))
+            return F.fn("idx", need(base), ix)
+        return super()._ev(node)
+
+    def _call(self, node):
+        r = super()._call(node)
+        if not is_unknown(r):
+            return r
+        name = dotted(node.func)
+        args = []
+        if name is None:
+            if isinstance(node.func, ast.Attribute):
+                b = self._ev(node.func.value)
+                if is_unknown(b) or isinstance(b, tuple):
+                    return r
+                args.append(need(b))
+                name = "." + node.func.attr
+            else:
+                return r
+        for a in node.args:
+            v = self._ev(a)
+            if is_unknown(v):
+                return v
+            if isinstance(v, tuple):
+                if any(is_unknown(x) or isinstance(x, tuple) for x in v):
+                    return Unknown("nested tuple argument")
+                v = F.fn("tuple", *[need(x) for x in v])
+            args.append(need(v))
+        for k in node.keywords:
+            if k.arg is None:
+                return Unknown("**kwargs")
+            v = self._ev(k.value)
+            if is_unknown(v) or isinstance(v, tuple):
+                return Unknown(f"keyword {k.arg}")
+            args.append(F.fn("kw:" + k.arg, need(v)))
+        return F.fn("call:" + name, *args)
+
+    def _assign(self, target, v, st, aug=False):
+        if isinstance(target, ast.Subscript) and isinstance(target.value, ast.Name) and target.value.id in self.buffers:
+            try:
+                ix = self._index_value(target.slice)
+            except Unsupported as e:
+                ix = Unknown(str(e))
+            self.cells.append((target.value.id, ix, v, st))
+            self.stores.append((target.value.id, ast.unparse(target.slice), v, st))
+            return
+        if isinstance(target, ast.Name) and target.id in self.buffers:
+            # (re)binding of a buffer name: remember what it was created from, keep the symbol
+            self.env["<init:%s>" % target.id] = v
+            return
+        return super()._assign(target, v, st, aug)
+
+    def expr(self, text):
+        """value of a Python expression written over the function's roots (used for the expected side of a rule)"""
+        return self.ev(ast.parse(text, mode="eval").body)
